@@ -6,7 +6,7 @@
       conclude with) are evaluated on the implementation's OBSERVED output: window dimensions,
       normalised probability matrix (exact bit patterns -> exact rationals), pick sequence
       -> `PROPFAIL C14 <predicate> ...`, or `KNOWN C14 <Fxx> ...` inside the region of an open finding
-      (regions are decidable predicates on the INPUTS: `f21Region`, `f23Region`, `f25Region`);
+      (regions are decidable predicates on the INPUTS: `f21Region`, `f23Region`, `f25Region`, and for F33 the model's raw window weights);
    2. the model (Model/Det.lean at `TF.float`) is run and compared -> `MISMATCH ...`:
       * window dimensions: the model's `windowDims` on the observed `max_distance` (the same IEEE
         division and ceil as the C++), exact;
@@ -189,7 +189,14 @@ def handleProb (st : State) (args obs : List String) : State × String :=
       | none => (st', "BADLINE")
       | some law =>
         if !normal then
+          -- region of F33: every raw weight abs(pdf(distance)) of this window is 0 in double precision (0 / 0)
+          let f33 : Bool :=
+            match rawWeights T law (ratToFloat st.scale) (ratToFloat st.shape) (ratToFloat st.ns) (ratToFloat st.ew)
+                    rows.toNat cols.toNat (Int.tdiv rows 2) (Int.tdiv cols 2) with
+            | .ok raw => !raw.isEmpty && raw.all (· == 0.0)
+            | .error _ => false
           (st', if f25Region law st.scale st.shape then "KNOWN C14 F25 weights-not-a-probability-vector (density unbounded at the centre)"
+                else if f33 && fl.all Float.isNaN then "KNOWN C14 F33 weights-not-a-probability-vector (every density of the window is 0 in double precision)"
                 else "PROPFAIL C14 normalised weights-not-a-probability-vector")
         else
           let nr := rows.toNat; let nc := cols.toNat
